@@ -716,27 +716,35 @@ def parseCacheControl (value : Str) : Except String (Dict (Option Str)) :=
 
 /-- `_CacheControl._get_cache_value(key, empty, type)` -/
 def getCacheValue (d : Dict (Option Str)) (key : Str) (empty : CCVal) (ty : CCType) : Except String CCVal :=
-  if ty == .bool then .ok (if dictHas d key then .true_ else .false_) else
-  match dictGet? d key with
-  | none => .ok .none
-  | some none => .ok empty
-  | some (some v) =>
-    match ty with
-    | .int => catching ["ValueError"] ((pyInt v).map .int) .none
-    | _ => .ok (.str v)
+  match ty with
+  | .bool => .ok (if dictHas d key then .true_ else .false_)
+  | .int =>
+    match dictGet? d key with
+    | none => .ok .none
+    | some none => .ok empty
+    | some (some v) => catching ["ValueError"] ((pyInt v).map .int) .none
+  | .str =>
+    match dictGet? d key with
+    | none => .ok .none
+    | some none => .ok empty
+    | some (some v) => .ok (.str v)
+
+/-- Python truthiness of a property value -/
+def ccTruthy : CCVal → Bool
+  | .none | .false_ => false
+  | .true_ => true
+  | .int i => i != 0
+  | .str s => !s.isEmpty
 
 /-- `_CacheControl._set_cache_value(key, value, type)` (value already of the property's type) -/
 def setCacheValue (d : Dict (Option Str)) (key : Str) (value : CCVal) (ty : CCType) : Dict (Option Str) :=
-  if ty == .bool then
-    match value with
-    | .true_ => dictSet d key none
-    | _ => dictPop d key
-  else
-    match value with
-    | .none | .false_ => dictPop d key
-    | .true_ => dictSet d key none
-    | .int i => dictSet d key (some (intText i))
-    | .str s => dictSet d key (some s)
+  match ty, value with
+  | .bool, v => if ccTruthy v then dictSet d key none else dictPop d key
+  | _, .none => dictPop d key
+  | _, .false_ => dictPop d key
+  | _, .true_ => dictSet d key none
+  | _, .int i => dictSet d key (some (intText i))
+  | _, .str s => dictSet d key (some s)
 
 /-! ### Content-Security-Policy -/
 
